@@ -50,7 +50,10 @@ def correspondence(ctx):
     for _ in range(ctx.n(900)):
         seq, descs = hard.rand_problem(rng)
         try:
-            stub, space, restrs = build(seq, descs)
+            built = vlib.limited(lambda: build(seq, descs), 10, None, errors)
+            if built is None:
+                continue
+            stub, space, restrs = built
         except Exception as e:  # constructor / initialisation errors are outside this property
             errors[type(e).__name__] = errors.get(type(e).__name__, 0) + 1
             continue
@@ -233,10 +236,11 @@ def search(ctx, budget, hints):
     rng = vlib.Rng(ctx.seed + 1515)
     out = []
     n = 0
+    tstats = {}
     for _ in range(500 * budget):
         seq, descs = hard.rand_problem(rng)
-        n += oracle_problem(rng, seq, descs, out)
-    best, hist = {}, {}
+        n += vlib.limited(lambda: oracle_problem(rng, seq, descs, out), 15, 0, tstats)
+    best, hist = {}, {"skipped:" + k: v for k, v in tstats.items()}
     for c in out:
         hist[c["kind"]] = hist.get(c["kind"], 0) + 1
         if c["kind"] not in best or len(str(c["input"])) < len(str(best[c["kind"]]["input"])):
